@@ -195,7 +195,7 @@ def _cap_want(one_plus_terms):
 # raises ZeroDivisionError where the IA solver reports inf (repaired there in /repo df97db4).  Proposed repair:
 # notes/fixes/C11-channel-sinr-zero-denominator.patch.  Until it is applied the exception is tolerated (and counted)
 # for streams whose exact SINR is infinite; set to False afterwards.
-TOLERATE_ZERO_DIVISION = True
+TOLERATE_ZERO_DIVISION = False
 _TOLERATED = [0]
 
 
